@@ -142,7 +142,7 @@ class Engine:
             self.buf = []
 
     def _collect(self, ar):
-        r = ar.get(timeout=3600)
+        r = ar.get(timeout=1800)
         t = self.tot
         t['cases'] += r['cases']
         t['steps'] += r['steps']
@@ -160,12 +160,32 @@ class Engine:
         t['skipped_after_timeouts'] = t.get('skipped_after_timeouts', 0) + r.get('skipped', 0)
         t['skipped_after_many_divergences'] = t.get('skipped_after_many_divergences', 0) + r.get('skipped_clear', 0)
 
-    def finish(self):
+    def finish(self, drain_timeout=900):
+        """Wait for the queued batches. A tree under test that makes every case slow (not hanging, not failing) could keep
+        the workers busy for hours after TLC has finished: after `drain_timeout` seconds the pool is terminated and the
+        run goes on with what was replayed (`drain_timed_out`); the caller turns that into a machinery failure unless
+        divergences were already found."""
+        import time as _time
         self._flush()
+        deadline = _time.time() + drain_timeout
+        timed_out = False
         for ar in self.pending:
-            self._collect(ar)
+            if timed_out:
+                break
+            try:
+                ar.wait(max(1.0, deadline - _time.time()))
+                if not ar.ready():
+                    timed_out = True
+                    break
+                self._collect(ar)
+            except mp.TimeoutError:
+                timed_out = True
         self.pending = []
-        self.pool.close()
+        if timed_out:
+            self.tot['drain_timed_out'] = True
+            self.pool.terminate()
+        else:
+            self.pool.close()
         self.pool.join()
         return self.tot
 
